@@ -22,6 +22,34 @@ type QConfig struct {
 	MaxPages    uint   `json:"max,omitempty"`
 	WriteBuffer uint   `json:"wbuf,omitempty"`
 	InitMeta    uint32 `json:"meta,omitempty"`
+	Observer    bool   `json:"obs,omitempty"` // install a pq.Observer (stats callbacks) on every queue handle
+}
+
+// qObserver records the totals reported through the pq.Observer callbacks.
+type qObserver struct {
+	r            *QRunner
+	flushedOK    int // sum of FlushStats.Events of flushes not marked Failed
+	ackedOK      int // sum of ACKStats.Events of ACKs not marked Failed
+	failedFlush  int
+	lastInit     int // 'available' reported by the most recent OnQueueInit (-1: none)
+	initReported bool
+}
+
+func (o *qObserver) OnQueueInit(_ uintptr, _ uint32, available uint) {
+	o.lastInit, o.initReported = int(available), true
+}
+func (o *qObserver) OnQueueFlush(_ uintptr, st pq.FlushStats) {
+	if st.Failed {
+		o.failedFlush++
+		return
+	}
+	o.flushedOK += int(st.Events)
+}
+func (o *qObserver) OnQueueRead(_ uintptr, _ pq.ReadStats) {}
+func (o *qObserver) OnQueueACK(_ uintptr, st pq.ACKStats) {
+	if !st.Failed {
+		o.ackedOK += int(st.Events)
+	}
 }
 
 // QStep is one step of a queue program.
@@ -158,6 +186,7 @@ type QRunner struct {
 	writeFailed  bool
 	maxPagesUsed uint
 	callInj0     int // injected failures before the current writer/ACK call
+	qobs         *qObserver
 }
 
 // NewQRunner creates file, delegate and queue.
@@ -201,13 +230,32 @@ func (r *QRunner) openQueue() *Violation {
 	if err != nil {
 		return violationf("q-open", r.step, "NewStandaloneDelegate failed: %v", err)
 	}
-	q, err := pq.New(d, pq.Settings{
+	settings := pq.Settings{
 		WriteBuffer: r.P.Cfg.WriteBuffer,
 		Flushed:     func(n uint) { r.FlushedCB += int(n) },
 		ACKed:       func(ev, pages uint) { r.AckedCB += int(ev) },
-	})
+	}
+	if r.P.Cfg.Observer {
+		if r.qobs == nil {
+			r.qobs = &qObserver{r: r}
+		}
+		r.qobs.initReported = false
+		settings.Observer = r.qobs
+	}
+	q, err := pq.New(d, settings)
 	if err != nil {
 		return violationf("q-open", r.step, "pq.New failed: %v", err)
+	}
+	if r.qobs != nil {
+		// C17 (also after reopening the queue): the number of available events reported when the
+		// queue is opened is flushed minus ACKed
+		if !r.qobs.initReported {
+			return violationf("q-observer-init", r.step, "pq.New with an Observer did not report OnQueueInit")
+		}
+		if want := r.FlushedCB - r.Acked; r.qobs.lastInit != want && !(r.O.Faults && !r.Disk.FaultOver()) {
+			return violationf("q-observer-init", r.step, "OnQueueInit reported %d available events, flushed minus ACKed is %d (flushed %d, ACKed %d)", r.qobs.lastInit, want, r.FlushedCB, r.Acked)
+		}
+		r.count("observer-init-checked")
 	}
 	r.Q = q
 	r.W = nil
@@ -571,7 +619,13 @@ func (r *QRunner) Step(s *QStep) *Violation {
 					buffered += len(ev) + 4
 				}
 				payload := int(r.P.Cfg.PageSize) - 28
-				if need := buffered/(payload-3) + 2; need+14 <= int(r.P.Cfg.MaxPages) {
+				// the meta area (write-ahead and free list pages; it grows in steps up to 16 pages in these
+				// histories and is never given back to the data area) is part of C12's "constant"
+				metaArea := int(r.F.VerifState().MetaTotal)
+				if metaArea < 8 {
+					metaArea = 8
+				}
+				if need := buffered/(payload-3) + 2; need+metaArea+6 <= int(r.P.Cfg.MaxPages) {
 					return violationf("q-stuck", r.step, "all %d flushed events are ACKed, the %d buffered bytes need about %d of %d pages, but Flush still fails: %v",
 						r.FlushedCB, buffered, need, r.P.Cfg.MaxPages, err)
 				}
@@ -874,6 +928,13 @@ func (r *QRunner) probe() *Violation {
 	}
 	if r.AckedCB != r.Acked {
 		return violationf("q-ack-callback", r.step, "ACKed callbacks reported %d events in total, %d were ACKed", r.AckedCB, r.Acked)
+	}
+	if o := r.qobs; o != nil {
+		if o.flushedOK != r.FlushedCB || o.ackedOK != r.AckedCB {
+			return violationf("q-observer-totals", r.step, "the Observer callbacks reported %d flushed / %d ACKed events in successful operations, the Flushed/ACKed callbacks %d / %d",
+				o.flushedOK, o.ackedOK, r.FlushedCB, r.AckedCB)
+		}
+		r.count("observer-totals-checked")
 	}
 	if r.inSect && r.curEv < 0 {
 		avail, err := r.R.Available()
